@@ -374,58 +374,70 @@ where
         | some m => if l > m then some l else some m)
     | o => .inl o
 
+/-- end of Or.parseImpl (4333-4350): raise the chosen fatal, else the farthest ParseException -/
+def orAfter (fatals : List Fatal) (mx : Option Nat) (loc : Nat) : Out :=
+  match pickFatal fatals with
+  | some f => .fail f.c f.loc
+  | none => match mx with
+    | some l => .fail .parse l
+    | none => .fail .parse loc
+
+/-- Or.parseImpl after its optional pre-parse (4276-4350) -/
+def orAt (p : P) (nameLen : Nat → Nat) (slen : Nat) (acts : Bool) (es : List Nat) (loc : Nat) : Out :=
+  match orPass1 p nameLen slen loc es {} with
+  | none => .hang
+  | some a =>
+    if a.cands.isEmpty then orAfter a.fatals a.mx loc
+    else if !acts then
+      match sortDesc a.cands with
+      | (_, e) :: _ => p e loc acts true
+      | [] => .hang
+    else
+      match orPass2 p loc (sortDesc a.cands) none a.mx with
+      | .inl o => o
+      | .inr (some (ll, lt), _) => .ok ll lt
+      | .inr (none, mx) => orAfter a.fatals mx loc
+
+def callPreOf (g : Grammar) (i : Nat) : Bool :=
+  match g[i]? with
+  | some n => n.callPre
+  | none => true
+
+def nameLenOf (g : Grammar) (i : Nat) : Nat :=
+  match g[i]? with
+  | some n => n.nameLen
+  | none => 0
+
 /-- Or.parseImpl (4268-4350) -/
 def orImpl (p : P) (g : Grammar) (nd : Node) (s : List Char) (acts : Bool) (es : List Nat) (loc : Nat) : Out :=
-  let callPreOf := fun (i : Nat) => match g[i]? with
-    | some n => n.callPre
-    | none => true
-  let nameLen := fun (i : Nat) => match g[i]? with
-    | some n => n.nameLen
-    | none => 0
-  let pre := if es.all callPreOf then preParse p nd s loc else PreR.at loc
-  match pre with
+  match (if es.all (callPreOf g) then preParse p nd s loc else PreR.at loc) with
   | .abort o => o
-  | .at loc =>
-    match orPass1 p nameLen s.length loc es {} with
-    | none => .hang
-    | some a =>
-      let afterMatches (mx : Option Nat) : Out :=
-        match pickFatal a.fatals with
-        | some f => .fail f.c f.loc
-        | none => match mx with
-          | some l => .fail .parse l
-          | none => .fail .parse loc
-      if a.cands.isEmpty then afterMatches a.mx
-      else
-        let sorted := sortDesc a.cands
-        if !acts then
-          match sorted with
-          | (_, e) :: _ => p e loc acts true
-          | [] => .hang
-        else
-          match orPass2 p loc sorted none a.mx with
-          | .inl o => o
-          | .inr (some (ll, lt), _) => .ok ll lt
-          | .inr (none, mx) => afterMatches mx
+  | .at loc => orAt p (nameLenOf g) s.length acts es loc
+
+/-- `try_not_ender(instring, loc)` of _MultipleMatch (5135-5149): `some true` = the stop_on sentinel is next -/
+def stopCheck (p : P) (notEnder : Option Nat) (loc : Nat) : Option Bool :=
+  match notEnder with
+  | none => some false
+  | some ne => match tryParse p ne loc false false with
+    | .ok _ _ => some false
+    | .fail _ _ => some true
+    | .idx => some true
+    | .hang => none
+
+/-- `self._skipIgnorables(instring, loc)` inside the repetition loop (5150-5153) -/
+def manyPre (p : P) (nd : Node) (slen loc : Nat) : PreR :=
+  if nd.ignore.isEmpty then PreR.at loc else skipIgnorables p slen nd.ignore (slen + 2) loc
 
 /-- the `while 1` loop of _MultipleMatch.parseImpl (5146-5156) -/
 def manyLoop (p : P) (nd : Node) (acts : Bool) (slen : Nat) (e : Nat) (notEnder : Option Nat) :
     Nat → Nat → List Tok → Out
   | 0, _, _ => .hang
   | k+1, loc, acc =>
-    let stopHere : Option Bool := match notEnder with
-      | none => some false
-      | some ne => match tryParse p ne loc false false with
-        | .ok _ _ => some false
-        | .fail _ _ => some true
-        | .idx => some true
-        | .hang => none
-    match stopHere with
+    match stopCheck p notEnder loc with
     | none => .hang
     | some true => .ok loc acc
     | some false =>
-      let pre := if nd.ignore.isEmpty then PreR.at loc else skipIgnorables p slen nd.ignore (slen + 2) loc
-      match pre with
+      match manyPre p nd slen loc with
       | .abort (.fail .parse _) => .ok loc acc
       | .abort .idx => .ok loc acc
       | .abort o => o
@@ -448,24 +460,38 @@ def manyImpl (p : P) (nd : Node) (acts : Bool) (slen : Nat) (e : Nat) (notEnder 
      | o => o)
   | o => o
 
+/-- `while 1: tmploc = ignorer_try_parse(instring, tmploc)` of SkipTo (5515-5524) -/
+def ignLoop (p : P) (i : Nat) : Nat → Nat → Sum Out Nat
+  | 0, _ => .inl .hang
+  | k+1, t =>
+    match tryParse p i t false false with
+    | .ok l _ => if l == t then .inr l else ignLoop p i k l
+    | .fail _ _ => .inr t
+    | .idx => .inl .idx
+    | .hang => .inl .hang
+
+/-- `self_failOn_canParseNext(instring, tmploc)` (5507-5510) -/
+def failOnCheck (p : P) (failOn : Option Nat) (tmploc : Nat) : Option Bool :=
+  match failOn with
+  | none => some false
+  | some f => canParseNext p f tmploc false
+
+def ignStep (p : P) (slen : Nat) (ignorer : Option Nat) (tmploc : Nat) : Sum Out Nat :=
+  match ignorer with
+  | none => .inr tmploc
+  | some i => ignLoop p i (slen + 2) tmploc
+
 /-- SkipTo.parseImpl scanning loop (5505-5536) : returns the location of the target, or an outcome -/
 def skipScan (p : P) (slen : Nat) (e : Nat) (failOn ignorer : Option Nat) (loc0 : Nat) :
     Nat → Nat → Sum Out Nat
   | 0, _ => .inl (.fail .parse loc0)
   | k+1, tmploc =>
     if tmploc > slen then .inl (.fail .parse loc0) else
-    let fo : Option Bool := match failOn with
-      | none => some false
-      | some f => canParseNext p f tmploc false
-    match fo with
+    match failOnCheck p failOn tmploc with
     | none => .inl .hang
     | some true => .inl (.fail .parse loc0)
     | some false =>
-      -- advance past ignore expressions (5515-5524)
-      let ig : Sum Out Nat := match ignorer with
-        | none => .inr tmploc
-        | some i => ignLoop p i (slen + 2) tmploc
-      match ig with
+      match ignStep p slen ignorer tmploc with
       | .inl o => .inl o
       | .inr t =>
         match p e t false false with
@@ -473,15 +499,6 @@ def skipScan (p : P) (slen : Nat) (e : Nat) (failOn ignorer : Option Nat) (loc0 
         | .fail .parse _ => skipScan p slen e failOn ignorer loc0 k (t + 1)
         | .idx => skipScan p slen e failOn ignorer loc0 k (t + 1)
         | o => .inl o
-where
-  ignLoop (p : P) (i : Nat) : Nat → Nat → Sum Out Nat
-    | 0, _ => .inl .hang
-    | k+1, t =>
-      match tryParse p i t false false with
-      | .ok l _ => if l == t then .inr l else ignLoop p i k l
-      | .fail _ _ => .inr t
-      | .idx => .inl .idx
-      | .hang => .inl .hang
 
 /-- SkipTo.parseImpl (5495-5546) -/
 def skipToImpl (p : P) (s : List Char) (acts : Bool) (e : Nat) (incl : Bool) (failOn ignorer : Option Nat)
